@@ -57,6 +57,30 @@ def handle (ws : List String) : Option String :=
       let cd := compDomain (fc == "1") d0 d1 c wl wr mb
       some s!"{showRat cd.1} {showRat cd.2}"
     | _ => none
+  | "search" :: "|" :: rest =>
+    -- the triple search alone, on a given centre part / domains (the floats the code used)
+    match Drv13.splitOnTok "|" rest with
+    | [se, sw, sd, scn, sst] => do
+      let e ← rats se; let w ← rats sw; let d ← rats sd
+      let cn ← (parseNats? scn).map Array.toList
+      match e, d, sst with
+      | [e0, e1], [d0, d1, c0, c1], a0 :: a1 :: nsa :: ncas => do
+        let a0 ← parseRat? a0; let a1 ← parseRat? a1
+        let nsa ← nsa.toNat?
+        let ncas ← (parseNats? ncas).map Array.toList
+        let saL := linspace 1 a0 nsa
+        let caOf : Rat → List Rat := fun sa =>
+          match (saL.zip ncas).find? (fun p => p.1 == sa) with
+          | some p => linspace sa a1 p.2
+          | none => []
+        match searchNx e0 e1 w d0 d1 c0 c1 saL caOf cn with
+        | none => some "none"
+        | some f =>
+          let isa := (saL.findIdx? (· == f.sa)).getD 0
+          let ica := ((caOf f.sa).findIdx? (· == f.ca)).getD 0
+          some s!"{f.nx} {isa} {ica} {f.sd.ws.length} {showRat f.res.x0} | {showL f.res.ws}"
+      | _, _, _ => none
+    | _ => none
   | "oaw" :: "|" :: rest =>
     match Drv13.splitOnTok "|" rest with
     | [s1, sdom, sdist, svec, sss, sfr, sroots, scn, sn] => do
